@@ -58,7 +58,8 @@ where
     where
         T: AsRef<str>,
     {
-        let mut num = start_num;
+        // Count in u128: a numeric suffix of usize::MAX must not overflow the counter.
+        let mut num = start_num as u128;
         let mut new_name = format!("{prefix}{num}");
         while exclusions.clone().any(|n| n.as_ref() == new_name) {
             num += 1;
